@@ -8,6 +8,7 @@ import (
 	"hash"
 	"math/rand"
 	"sort"
+	"strconv"
 	"strings"
 	"time"
 
@@ -20,24 +21,58 @@ func init() {
 	core.RegisterReplay("codec-rdf", replayRdf)
 }
 
-// rdfCase is one line printed by RdfIso.tla: a dataset and the key of its isomorphism class.
+// rdfCase is one line printed by RdfIso.tla: a dataset (quads <<s, p, o, g>>, g = 0 for the default graph),
+// the key of its isomorphism class and, per naming, the place of each statement in the sorted statement list.
 type rdfCase struct {
-	K      string   `json:"k"`
-	Quads  [][3]int `json:"quads"`
-	Key    [2]int   `json:"key"`
-	Aut    int      `json:"aut"`
-	NBlank int      `json:"nblank"`
-	Orbit  int      `json:"orbit"`
+	K      string           `json:"k"`
+	Quads  [][4]int         `json:"quads,omitempty"`
+	Key    []int            `json:"key,omitempty"`
+	Aut    int              `json:"aut,omitempty"`
+	NBlank int              `json:"nblank,omitempty"`
+	Orbit  int              `json:"orbit,omitempty"`
+	Pos    map[string][]int `json:"pos,omitempty"`
+	Bgl    bool             `json:"bgl,omitempty"` // some graph is named by a blank node
 	// k = "pair": two datasets to be processed together (the replayable form of a disagreement between two cases)
 	A *rdfCase `json:"a,omitempty"`
 	B *rdfCase `json:"b,omitempty"`
+	// A case that is replayed alone carries the listings of its statements itself; in a generated file they
+	// come from the plan record.
+	Only *rdfOnly `json:"only,omitempty"`
+}
+
+// rdfOnly restricts a case to the given listings (1-based indices into Quads).
+type rdfOnly struct {
+	Perms [][]int `json:"perms"`
+	Dups  [][]int `json:"dups"`
+}
+
+// rdfPlan is the k = "plan" record, printed once per file: every permutation of 1..n, every listing of n
+// statements with one or two repetitions, and the order of the written forms of the terms that the
+// specification's statement order relies on.
+type rdfPlan struct {
+	Perms [][][]int                 `json:"perms"`
+	Dups  [][][]int                 `json:"dups"`
+	Rank  map[string]map[string]int `json:"rank"`
 }
 
 func pairOf(a, b rdfCase) rdfCase { return rdfCase{K: "pair", A: &a, B: &b} }
 
+// only returns c restricted to the given listings, so that it can be replayed without the plan.
+func (c rdfCase) only(perms, dups [][]int) rdfCase {
+	if perms == nil {
+		perms = [][]int{}
+	}
+	if dups == nil {
+		dups = [][]int{}
+	}
+	c.Only = &rdfOnly{Perms: perms, Dups: dups}
+	return c
+}
+
 // namings bind the specification's blank labels 1..3 to concrete label strings. Every naming is
 // injective; they differ in lexical order, length and shared prefixes, and one of them collides with
-// the labels the canonicalization issues itself.
+// the labels the canonicalization issues itself. (The lexical order of each naming is stated in
+// RdfIso.tla, BlankRank; checkRanks compares.)
 var namings = map[string][]string{
 	"b":      {"", "b1", "b2", "b3"},
 	"rev":    {"", "z", "y", "x"},
@@ -48,6 +83,8 @@ var namings = map[string][]string{
 
 func term(t int, names []string) rdf.Term {
 	switch {
+	case t == 0:
+		return rdf.Term{} // no graph label: the default graph
 	case t >= 1 && t <= 3:
 		return rdf.Term{Value: "_:" + names[t]}
 	case t == 10:
@@ -58,34 +95,87 @@ func term(t int, names []string) rdf.Term {
 		return rdf.Term{Value: "<http://example.org/p>"}
 	case t == 21:
 		return rdf.Term{Value: "<http://example.org/q>"}
+	case t == 30:
+		return rdf.Term{Value: "<http://example.org/g1>"}
+	case t == 31:
+		return rdf.Term{Value: "<http://example.org/g2>"}
 	}
 	panic(fmt.Sprintf("unknown term token %d", t))
 }
 
-func build(c *rdfCase, names []string, perm []int) []*rdf.Statement {
-	out := make([]*rdf.Statement, len(c.Quads))
-	for i, p := range perm {
-		q := c.Quads[p]
-		out[i] = &rdf.Statement{Subject: term(q[0], names), Predicate: term(q[1], names), Object: term(q[2], names)}
+// checkRanks verifies that the written forms of the terms have the order the specification assumes (this is
+// about the binding, not about gonum: a disagreement is an error of the harness, not a violation).
+func checkRanks(rank map[string]map[string]int) error {
+	for nm, tab := range rank {
+		names, ok := namings[nm]
+		if !ok {
+			return fmt.Errorf("plan: unknown naming %q", nm)
+		}
+		type tr struct {
+			s string
+			r int
+		}
+		var all []tr
+		for tok, r := range tab {
+			t, err := strconv.Atoi(tok)
+			if err != nil {
+				return fmt.Errorf("plan: bad term token %q", tok)
+			}
+			all = append(all, tr{term(t, names).Value, r})
+		}
+		for _, x := range all {
+			for _, y := range all {
+				if (x.s < y.s) != (x.r < y.r) {
+					return fmt.Errorf("plan: naming %s: written forms %q, %q are not in the order the specification states (%d, %d)", nm, x.s, y.s, x.r, y.r)
+				}
+			}
+		}
+	}
+	return nil
+}
+
+func stmt(q [4]int, names []string) *rdf.Statement {
+	return &rdf.Statement{Subject: term(q[0], names), Predicate: term(q[1], names), Object: term(q[2], names), Label: term(q[3], names)}
+}
+
+// build lists the statements of c in the order seq (1-based indices, repetitions allowed); every element is
+// a separate Statement value.
+func build(c *rdfCase, names []string, seq []int) []*rdf.Statement {
+	out := make([]*rdf.Statement, len(seq))
+	for i, p := range seq {
+		out[i] = stmt(c.Quads[p-1], names)
 	}
 	return out
 }
 
-func text(ss []*rdf.Statement) string {
-	lines := make([]string, len(ss))
+func lines(ss []*rdf.Statement) []string {
+	l := make([]string, len(ss))
 	for i, s := range ss {
 		if s == nil {
-			lines[i] = "<nil>"
+			l[i] = "<nil>"
 			continue
 		}
-		lines[i] = s.String()
+		l[i] = s.String()
 	}
-	sort.Strings(lines)
-	return strings.Join(lines, "\n")
+	return l
 }
+
+// text is the statement list as a set (sorted lines), seqText as the sequence it is.
+func text(ss []*rdf.Statement) string {
+	l := lines(ss)
+	sort.Strings(l)
+	return strings.Join(l, "\n")
+}
+
+func seqText(ss []*rdf.Statement) string { return strings.Join(lines(ss), "\n") }
 
 type canonAlgo struct {
 	name string
+	// graphOnly: a graph normalization algorithm; not run on datasets in which a blank node names a graph
+	graphOnly bool
+	// list: the function returns the canonical statement LIST (the sequence is part of the output that has to
+	// be identical); otherwise the harness relabels the source statements and only the set is compared
+	list bool
 	run  func(src []*rdf.Statement) ([]*rdf.Statement, error)
 }
 
@@ -106,7 +196,7 @@ func isoHashes(decomp bool, mk func() hash.Hash) func(src []*rdf.Statement) ([]*
 		out := make([]*rdf.Statement, len(src))
 		for i, s := range src {
 			c := *s
-			for _, t := range []*rdf.Term{&c.Subject, &c.Object} {
+			for _, t := range []*rdf.Term{&c.Subject, &c.Object, &c.Label} {
 				if !strings.HasPrefix(t.Value, "_:") {
 					continue
 				}
@@ -123,29 +213,54 @@ func isoHashes(decomp bool, mk func() hash.Hash) func(src []*rdf.Statement) ([]*
 }
 
 var canonAlgos = []canonAlgo{
-	{"URDNA2015", func(src []*rdf.Statement) ([]*rdf.Statement, error) { return rdf.URDNA2015(nil, src) }},
-	{"URGNA2012", func(src []*rdf.Statement) ([]*rdf.Statement, error) { return rdf.URGNA2012(nil, src) }},
-	{"IsoCanonicalHashes+C14n", isoC14n(false, sha1.New)},
-	{"IsoCanonicalHashes", isoHashes(false, md5.New)},
-	{"IsoCanonicalHashes-decomp", isoHashes(true, md5.New)},
+	{"URDNA2015", false, true, func(src []*rdf.Statement) ([]*rdf.Statement, error) { return rdf.URDNA2015(nil, src) }},
+	{"URGNA2012", true, true, func(src []*rdf.Statement) ([]*rdf.Statement, error) { return rdf.URGNA2012(nil, src) }},
+	{"IsoCanonicalHashes+C14n", false, true, isoC14n(false, sha1.New)},
+	{"IsoCanonicalHashes", false, false, isoHashes(false, md5.New)},
+	{"IsoCanonicalHashes-decomp", false, false, isoHashes(true, md5.New)},
 }
 
-func keyStr(k [2]int) string { return fmt.Sprintf("%d:%d", k[0], k[1]) }
+func keyStr(k []int) string {
+	s := make([]string, len(k))
+	for i, v := range k {
+		s[i] = strconv.Itoa(v)
+	}
+	return strings.Join(s, ":")
+}
 
 type seen struct {
-	text string
+	text string // canonical output as a set (for byText: the key)
+	seq  string // canonical output as the sequence returned
 	c    rdfCase
+	perm []int
 	how  string
+}
+
+func sameTerms(a, b *rdf.Statement) bool {
+	return a != nil && b != nil && a.Subject.Value == b.Subject.Value && a.Predicate.Value == b.Predicate.Value &&
+		a.Object.Value == b.Object.Value && a.Label.Value == b.Label.Value
 }
 
 func replayRdf(in *core.Lines, args []string, seed int64, sum *core.Summary) error {
 	nameSet := []string{"b", "rev", "c14n"}
+	permsAll, dedup := false, false
 	for _, a := range args {
-		if strings.HasPrefix(a, "namings=") {
+		switch {
+		case strings.HasPrefix(a, "namings="):
 			nameSet = strings.Split(a[len("namings="):], ",")
+		case a == "perms=all": // every statement order of the plan instead of identity, reverse and a random one
+			permsAll = true
+		case a == "dedup=1": // rdf.Deduplicate on every listing with repetitions of the plan
+			dedup = true
 		}
 	}
 	rnd := rand.New(rand.NewSource(seed))
+	var plan *rdfPlan
+	// every failure is counted per signature (the summary keeps three of each)
+	fail := func(sig, msg string, c any) {
+		sum.Count("failed "+sig, 1)
+		sum.Fail(sig, msg, c)
+	}
 	// per algorithm: key -> canonical text first seen, canonical text -> key first seen
 	byKey := make([]map[string]seen, len(canonAlgos))
 	byText := make([]map[string]seen, len(canonAlgos))
@@ -173,22 +288,60 @@ func replayRdf(in *core.Lines, args []string, seed int64, sum *core.Summary) err
 		key := keyStr(c.Key)
 		n := len(c.Quads)
 		ident := make([]int, n)
-		for i := range ident {
-			ident[i] = i
-		}
 		rev := make([]int, n)
-		for i := range rev {
-			rev[i] = n - 1 - i
+		for i := range ident {
+			ident[i] = i + 1
+			rev[i] = n - i
 		}
-		orders := [][]int{ident, rev, rnd.Perm(n)}
+		var orders, dups [][]int
+		switch {
+		case c.Only != nil:
+			orders, dups = c.Only.Perms, c.Only.Dups
+		case permsAll:
+			if plan == nil || n > len(plan.Perms) {
+				return fmt.Errorf("line %d: perms=all, but no plan record covers %d statements", in.N, n)
+			}
+			orders = plan.Perms[n-1]
+		default:
+			rp := rnd.Perm(n)
+			for i := range rp {
+				rp[i]++
+			}
+			orders = [][]int{ident, rev, rp}
+			if n < 2 {
+				orders = orders[:1]
+			}
+		}
+		if c.Only == nil && dedup {
+			if plan == nil || n > len(plan.Dups) {
+				return fmt.Errorf("line %d: dedup=1, but no plan record covers %d statements", in.N, n)
+			}
+			// listings with repetitions, and the plain permutations (nothing to remove, only to sort)
+			dups = append(append([][]int{}, plan.Dups[n-1]...), plan.Perms[n-1]...)
+		}
+		for _, l := range append(append([][]int{}, orders...), dups...) {
+			for _, p := range l {
+				if p < 1 || p > n {
+					return fmt.Errorf("line %d: listing %v of a dataset with %d statements", in.N, l, n)
+				}
+			}
+		}
 
+		// signatures of failures on datasets in which a blank node names a graph are kept apart
+		bgl := ""
+		if c.Bgl {
+			bgl = ":blank-graph-label"
+		}
 		for ai, alg := range canonAlgos {
+			if alg.graphOnly && c.Bgl {
+				// URGNA2012 writes every blank graph name as "_:g" and does not follow the graph position (by its
+				// definition), so it cannot tell such blank nodes apart: outside what it promises
+				sum.Count("skipped_"+alg.name+"_blank_graph_label", 1)
+				continue
+			}
 			for _, nm := range nameSet {
 				names := namings[nm]
-				for oi, perm := range orders {
-					if oi > 0 && n < 2 {
-						continue
-					}
+				for _, perm := range orders {
 					sum.Cases++
 					if c.NBlank > 0 {
 						sum.Nontrivial++
@@ -199,35 +352,89 @@ func replayRdf(in *core.Lines, args []string, seed int64, sum *core.Summary) err
 					var err error
 					o := core.CallTimeout(20*time.Second, func() { out, err = alg.run(src) })
 					sig := "codec:rdf." + alg.name
+					one := c.only([][]int{perm}, nil)
 					switch {
 					case o.Hung:
-						sum.Fail(sig+":hang", fmt.Sprintf("%s on %s (%s) did not return", alg.name, text(src), how), c)
+						fail(sig+":hang"+bgl, fmt.Sprintf("%s on %s (%s) did not return", alg.name, text(src), how), one)
 						continue
 					case o.Panicked:
-						sum.Fail(sig+":panic", fmt.Sprintf("%s on %s (%s) panicked: %s", alg.name, text(src), how, o.Text), c)
+						fail(sig+":panic"+bgl, fmt.Sprintf("%s on %s (%s) panicked: %s", alg.name, text(src), how, o.Text), one)
 						continue
 					case err != nil:
-						sum.Fail(sig+":error", fmt.Sprintf("%s on %s (%s) returned error %v", alg.name, text(src), how, err), c)
+						fail(sig+":error"+bgl, fmt.Sprintf("%s on %s (%s) returned error %v", alg.name, text(src), how, err), one)
 						continue
-					case len(out) != n:
-						sum.Fail(sig+":length", fmt.Sprintf("%s on %s (%s) returned %d statements", alg.name, text(src), how, len(out)), c)
+					case len(out) != len(perm):
+						fail(sig+":length"+bgl, fmt.Sprintf("%s on %s (%s) returned %d statements", alg.name, text(src), how, len(out)), one)
 						continue
 					}
 					t := text(out)
 					if s, ok := byKey[ai][key]; !ok {
-						byKey[ai][key] = seen{t, c, how}
+						byKey[ai][key] = seen{t, seqText(out), c, perm, how}
 					} else if s.text != t {
-						sum.Fail(sig+":isomorphic-differ", fmt.Sprintf("%s gives different canonical forms for isomorphic datasets (class %s): %v (%s) -> %q but %v (%s) -> %q",
-							alg.name, key, s.c.Quads, s.how, s.text, c.Quads, how, t), pairOf(s.c, c))
+						fail(sig+":isomorphic-differ"+bgl, fmt.Sprintf("%s gives different canonical forms for isomorphic datasets (class %s): %v (%s) -> %q but %v (%s) -> %q",
+							alg.name, key, s.c.Quads, s.how, s.text, c.Quads, how, t), pairOf(s.c.only([][]int{s.perm}, nil), one))
+					} else if st := seqText(out); alg.list && s.seq != st {
+						// the same statements, listed in an order that depends on the input
+						fail(sig+":isomorphic-differ-in-order"+bgl, fmt.Sprintf("%s lists the canonical statements of isomorphic datasets (class %s) in different orders: %v (%s) -> %q but %v (%s) -> %q",
+							alg.name, key, s.c.Quads, s.how, s.seq, c.Quads, how, st), pairOf(s.c.only([][]int{s.perm}, nil), one))
 					}
 					if s, ok := byText[ai][t]; !ok {
-						byText[ai][t] = seen{key, c, how}
+						byText[ai][t] = seen{key, "", c, perm, how}
 					} else if s.text != key {
-						sum.Fail(sig+":nonisomorphic-same", fmt.Sprintf("%s gives the same canonical form %q for non-isomorphic datasets %v (class %s) and %v (class %s)",
-							alg.name, t, s.c.Quads, s.text, c.Quads, key), pairOf(s.c, c))
+						fail(sig+":nonisomorphic-same"+bgl, fmt.Sprintf("%s gives the same canonical form %q for non-isomorphic datasets %v (class %s) and %v (class %s)",
+							alg.name, t, s.c.Quads, s.text, c.Quads, key), pairOf(s.c.only([][]int{s.perm}, nil), one))
 					}
 				}
 			}
+		}
+
+		// Deduplicate: whatever the listing (any order, statements repeated once or twice, not necessarily side
+		// by side), the result is the statements of the dataset, each once, at the places the specification
+		// printed for the naming ("sorted in lexical order")
+		if len(dups) > 0 {
+			for _, nm := range nameSet {
+				names := namings[nm]
+				pos := c.Pos[nm]
+				if len(pos) != n {
+					return fmt.Errorf("line %d: no statement order for naming %s", in.N, nm)
+				}
+				want := make([]*rdf.Statement, n)
+				for i, q := range c.Quads {
+					if pos[i] < 0 || pos[i] >= n || want[pos[i]] != nil {
+						return fmt.Errorf("line %d: statement order %v is not a permutation", in.N, pos)
+					}
+					want[pos[i]] = stmt(q, names)
+				}
+				for _, l := range dups {
+					sum.Cases++
+					if len(l) > n {
+						sum.Nontrivial++
+					}
+					src := build(&c, names, l)
+					var out []*rdf.Statement
+					o := core.Call(func() { out = rdf.Deduplicate(src) })
+					ok := !o.Panicked && len(out) == n
+					for i := 0; ok && i < n; i++ {
+						ok = sameTerms(out[i], want[i])
+					}
+					if ok {
+						continue
+					}
+					one := c.only(nil, [][]int{l})
+					given := seqText(build(&c, names, l))
+					switch {
+					case o.Panicked:
+						fail("codec:rdf.Deduplicate:panic"+bgl, fmt.Sprintf("Deduplicate(%q) (naming=%s listing=%v) panicked: %s", given, nm, l, o.Text), one)
+					case text(out) != text(want):
+						fail("codec:rdf.Deduplicate:wrong-statements"+bgl, fmt.Sprintf("Deduplicate(%q) (naming=%s listing=%v) = %q, the statements are %q",
+							given, nm, l, seqText(out), seqText(want)), one)
+					default:
+						fail("codec:rdf.Deduplicate:not-sorted"+bgl, fmt.Sprintf("Deduplicate(%q) (naming=%s listing=%v) = %q, in lexical order %q",
+							given, nm, l, seqText(out), seqText(want)), one)
+					}
+				}
+			}
+			sum.Count("deduplicate_calls", len(dups)*len(nameSet))
 		}
 
 		// Isomorphic(a, b) against Key equality: with the first dataset seen of the same class (other naming,
@@ -246,30 +453,43 @@ func replayRdf(in *core.Lines, args []string, seed int64, sum *core.Summary) err
 		if prev != nil && len(prev.Quads) == n {
 			pairs = append(pairs, pairT{*prev, keyStr(prev.Key) == key})
 		}
+		if len(orders) == 0 {
+			pairs = nil
+		}
 		for _, p := range pairs {
 			for _, decomp := range []bool{false, true} {
 				sum.Cases++
 				sum.Nontrivial++
-				a := build(&c, namings[nameSet[0]], orders[2])
-				b := build(&p.other, namings[nameSet[len(nameSet)-1]], func() []int {
-					r := make([]int, len(p.other.Quads))
-					for i := range r {
-						r[i] = len(r) - 1 - i
-					}
-					return r
-				}())
+				pa := orders[len(orders)-1]
+				a := build(&c, namings[nameSet[0]], pa)
+				pb := make([]int, len(p.other.Quads))
+				for i := range pb {
+					pb[i] = len(pb) - i
+				}
+				if p.other.Only != nil && len(p.other.Only.Perms) > 0 {
+					pb = p.other.Only.Perms[0]
+				}
+				b := build(&p.other, namings[nameSet[len(nameSet)-1]], pb)
 				var got bool
 				o := core.CallTimeout(20*time.Second, func() { got = rdf.Isomorphic(a, b, decomp, sha1.New()) })
+				two := pairOf(p.other.only([][]int{pb}, nil), c.only([][]int{pa}, nil))
+				how := ""
+				if decomp {
+					how = ":decomp"
+				}
+				if c.Bgl || p.other.Bgl {
+					how += ":blank-graph-label"
+				}
 				switch {
 				case o.Hung || o.Panicked:
-					sum.Fail("codec:rdf.Isomorphic:panic", fmt.Sprintf("Isomorphic(%q, %q, decomp=%v): %s", text(a), text(b), decomp, o.Text), pairOf(p.other, c))
+					fail("codec:rdf.Isomorphic:panic"+how, fmt.Sprintf("Isomorphic(%q, %q, decomp=%v): %s", text(a), text(b), decomp, o.Text), two)
 				case got != p.want:
 					kind := "misses-isomorphism"
 					if got {
 						kind = "claims-isomorphism"
 					}
 					sum.Count("Isomorphic_"+kind, 1)
-					sum.Fail("codec:rdf.Isomorphic:"+kind, fmt.Sprintf("Isomorphic(%q, %q, decomp=%v) = %v, specification %v (classes %s, %s)", text(a), text(b), decomp, got, p.want, key, keyStr(p.other.Key)), pairOf(p.other, c))
+					fail("codec:rdf.Isomorphic:"+kind+how, fmt.Sprintf("Isomorphic(%q, %q, decomp=%v) = %v, specification %v (classes %s, %s)", seqText(a), seqText(b), decomp, got, p.want, key, keyStr(p.other.Key)), two)
 				}
 				if p.want {
 					sum.Count("isomorphic_pairs_true", 1)
@@ -293,6 +513,16 @@ func replayRdf(in *core.Lines, args []string, seed int64, sum *core.Summary) err
 		var c rdfCase
 		if err := json.Unmarshal(line, &c); err != nil {
 			return fmt.Errorf("line %d: %v", in.N, err)
+		}
+		if c.K == "plan" {
+			plan = new(rdfPlan)
+			if err := json.Unmarshal(line, plan); err != nil {
+				return fmt.Errorf("line %d: %v", in.N, err)
+			}
+			if err := checkRanks(plan.Rank); err != nil {
+				return err
+			}
+			continue
 		}
 		if err := process(c); err != nil {
 			return err
